@@ -145,6 +145,64 @@ claim(
     "DESIGN.md section 3, C18",
 )
 
+claim(
+    "C01", "exploration",
+    "Hypothesis-generated arrays constructed to select each construction strategy, from_array -> to_array round trip + independent dense reader",
+    "Integer arrays of three shape classes (few values, many values dense, many values sparse -> per-row scan) over "
+    "palettes straddling every dtype boundary and negatives are converted with every option combination (common, counts, "
+    "mapping kinds, back-conversion dtype or mapping) and compared element for element; the index itself is checked with the "
+    "well-formedness predicate and an independent dense reader so that to_array cannot mask from_array.",
+    "Workers run under RLIMIT_AS so giant allocations surface as MemoryError; arrays with more than 2^31 elements are out of reach.",
+    "DESIGN.md section 3, C01",
+)
+claim(
+    "C06", "exploration",
+    "Hypothesis rule-based state machine with a dense NumPy reference model, invariant after every step",
+    "Random histories of all index operations over several live indexes are applied to the real indexes and to dense NumPy "
+    "models; after every step each index must stand for its model (independent reader), other operands must be "
+    "byte-identical and requested copies must not share storage. Failing histories shrink to a short operation list that "
+    "is replayed without Hypothesis.",
+    "Operations are drawn with knowledge of the current state so that every one is in the documented domain.",
+    "DESIGN.md section 3, C06",
+)
+claim(
+    "C07", "exploration",
+    "the C06 state machine with a well-formedness invariant (library validator + conditions it does not check) after every step",
+    "After every step of random histories (incl. construction from arrays and INDX reloads) each live index must pass the "
+    "comprehensive validator and the range / arity / non-emptiness / consequence conditions (abscissae, sparsity, inferred "
+    "cube shape).",
+    "Expectations are derived from the index's own dense content; raising operations end the history (C06 decides those).",
+    "DESIGN.md section 3, C07",
+)
+claim(
+    "C15", "exploration",
+    "the C06 state machine with pairwise equality invariants over live indexes reached by different histories + most-frequent-value check",
+    "After every library-chosen normalisation the common value's count must be the maximum; after every step ==, != are "
+    "checked against (shape, common, dense content) for every ordered pair of live indexes, against directly built twins "
+    "and against non-index objects.",
+    "Non-index comparands are plain objects; ties between equally frequent values are allowed either way.",
+    "DESIGN.md section 3, C15",
+)
+claim(
+    "C16", "exploration",
+    "schedule exploration: deterministic opcode-level scheduler (DetPool) driven by Hypothesis-drawn schedules + real threads under a 1 us switch interval; serial run as oracle",
+    "Cubes with 3..12 sub-cubes are evaluated with the pool forced on; the pool is replaced by a scheduler that runs "
+    "workers one at a time and pre-empts at bytecode boundaries inside catii according to generated schedules (shrinkable); "
+    "outputs are compared bit for bit with the serial run. Real-thread repetitions cover GIL-release points inside C calls "
+    "probabilistically.",
+    "Interleavings are sampled, not enumerated; NumPy C calls are atomic for DetPool.",
+    "DESIGN.md section 3, C16",
+)
+claim(
+    "C20", "fault_enumeration",
+    "exhaustive enumeration of the raising invocation index per generated cube (serial), singleton / full / drawn fault sets under real and deterministic pools",
+    "For every generated cube every invocation index of the interrupt callback is made to raise in turn (serial), and every "
+    "singleton, the full set and drawn subsets in pooled mode; exception identity, consultation counts, pool shutdown and "
+    "bit-for-bit correctness of re-used cube and function objects are checked.",
+    "Faults are exceptions raised by the callback; pooled invocation order is schedule-dependent.",
+    "DESIGN.md section 3, C20",
+)
+
 NOT_YET = "check not built yet in this session (work in progress; see DESIGN.md section 9 build order)"
 
 ALL = ["C%02d" % i for i in range(1, 21)]
